@@ -13,7 +13,13 @@ B  spec -> code: every enumerated state is materialised - candidate files with p
    default_keychain and default_face are called and their projection is compared with the state's `out`.
    Platform selection runs through the library's own dispatch (singleton not pre-injected) for sys.platform = linux /
    unsupported, and the Linux default transport with the new / old NFD socket path existing or not (kind "plat").
-   The real Linux platform lists are compared with their documented values under a patched HOME.
+   The real Linux platform lists are compared with their documented values under a patched HOME (given directly and
+   through a symbolic link).
+   WHAT KIND OF FILE-SYSTEM OBJECT stands at each path is part of the configuration (ClientConf: kind / ghost / cdir /
+   cwd / sobj / smiss / rel, location classes relT / relB): candidates that are symbolic links to a file kept in another
+   directory (relative stores next to the link, next to the target, or both), links to directories, sockets, dangling
+   links and link loops; candidate directories and the working directory reached through links; store locations that
+   are directories, links to directories, regular files, dangling links; relative locations spelled with ./ ../ nested.
 C  code -> spec: random larger configurations (up to 6 candidate files, any existence subset, each a file or a
    directory, variables unset / set / empty, independent key states (incl. empty values) and location classes, several default locations, file syntax variants) and random transport
    URIs; the recorded observations are judged by TLC (ClientConfJudge).
@@ -27,7 +33,9 @@ STORES = ('pib', 'tpm')
 VALID = {'pib': 'pib-sqlite3', 'tpm': 'tpm-file'}
 ENVVAR = {s: 'NDN_CLIENT_' + s.upper() for s in SETTINGS}
 INVS = ['I_Precedence', 'I_FirstFile', 'I_AsGiven', 'I_NextToFile', 'I_FallBack', 'I_Determined', 'I_Content', 'I_Values',
-        'I_Empty', 'I_Unreadable', 'I_Plat', 'I_Face']
+        'I_Empty', 'I_Unreadable', 'I_Objects', 'I_Plat', 'I_Face']
+READABLE = ('file', 'link')             # ClientConf: ReadableKinds
+REL_CLASSES = ('relE', 'relM', 'relCwd', 'relOther', 'relT', 'relB')
 EMPTY = {'k': 'empty', 'i': 0}          # the value used is the empty string (ClientConf: Src("empty", 0))
 
 
@@ -36,6 +44,12 @@ def norm_cfg(c):
     c = dict(c)
     c['env'] = {s: ('set' if v is True else 'unset' if v is False else v) for s, v in c['env'].items()}
     c.setdefault('kind', ['file'] * c['n'])
+    c.setdefault('ghost', ['none'] * c['n'])
+    c.setdefault('cdir', ['plain'] * c['n'])
+    c.setdefault('cwd', 'plain')
+    c.setdefault('sobj', {s: 'dir' for s in STORES})
+    c.setdefault('smiss', {s: 'absent' for s in STORES})
+    c.setdefault('rel', {s: 'std' for s in STORES})
     return c
 
 
@@ -45,7 +59,7 @@ def first_existing(c):
 
 def unreadable_first(c):
     f = first_existing(c)
-    return bool(f) and c['kind'][f - 1] == 'dir'
+    return bool(f) and c['kind'][f - 1] not in READABLE
 JUDGE_CFG = 'ClientConfJudge.cfg'
 
 
@@ -129,8 +143,10 @@ class World:
             return os.path.join(self.work, 'abs', nm)
         if lc == 'absEc':
             return os.path.join(self.work, 'abs', 'c:' + nm)
-        # relative: a bare name from the environment, a name with a directory part from a file
-        return 'rel-' + nm if src['k'] == 'env' else os.path.join('d', 'rel-' + nm)
+        # relative: a bare name from the environment, a name with a directory part from a file; spelled as c.rel says
+        d, base = ('', 'rel-' + nm) if src['k'] == 'env' else ('d/', 'rel-' + nm)
+        return {'std': d + base, 'dot': './' + d + base, 'dotdot': '../' + d + base,
+                'deep': 'up/../' + d + './' + base}[self.rel.get(s, 'std')]
 
     def store_value(self, s, src, lc):
         if src['k'] == 'def':
@@ -147,21 +163,114 @@ class World:
         if c['env'][s] == 'set':
             out.append({'k': 'env', 'i': 0})
         for i in sorted(c['exist']):
-            if c['key'][i - 1][s] == 'present' and c['kind'][i - 1] == 'file':
+            if c['key'][i - 1][s] == 'present' and c['kind'][i - 1] in READABLE:
                 out.append({'k': 'file', 'i': i})
         return out
 
+    # -- file-system objects
     def mkstore(self, s, path):
-        os.makedirs(path, exist_ok=True)
+        """an EXISTING store location: the kind of object c.sobj says"""
+        if os.path.lexists(path):
+            return
+        obj = self.sobj[s]
+        os.makedirs(os.path.dirname(path), exist_ok=True)
+        if obj == 'file':                       # exists, though nothing could be stored in it
+            open(path, 'w').close()
+            return
+        real = path
+        if obj == 'link':                       # the directory is kept elsewhere, the location is a link to it
+            self.nobj += 1
+            real = os.path.join(self.work, 'objs', 'o%d' % self.nobj, os.path.basename(path))
+        os.makedirs(real, exist_ok=True)
         if s == 'pib':
-            shutil.copyfile(self.template, os.path.join(path, 'pib.db'))
+            shutil.copyfile(self.template, os.path.join(real, 'pib.db'))
+        if obj == 'link':
+            os.symlink(real, path)
+
+    def mkmissing(self, s, path):
+        """a MISSING store location: nothing there, or (c.smiss) a symbolic link whose target is gone"""
+        if self.smiss[s] == 'dangling' and not os.path.lexists(path) and os.path.isdir(os.path.dirname(path)):
+            os.symlink(os.path.join(self.work, 'gone', os.path.basename(path)), path)
+
+    def place(self, s, base, g, exists):
+        """what the configuration puts where location g is looked up from directory base"""
+        if g.startswith('up/'):
+            os.makedirs(os.path.join(base, 'up'), exist_ok=True)
+        elif not exists and self.smiss[s] == 'dangling':
+            os.makedirs(os.path.dirname(os.path.join(base, g)), exist_ok=True)
+        (self.mkstore if exists else self.mkmissing)(s, os.path.join(base, g))
+
+    def canddir(self, i, c):
+        """directory of candidate i, created on first use: a real directory, or reached through a symbolic link"""
+        d = os.path.dirname(self.cand[i - 1])
+        if not os.path.lexists(d):
+            if c['cdir'][i - 1] == 'link':
+                real = os.path.join(self.work, 'cdirs', 'c%d' % i, 'ndn-real')
+                os.makedirs(real)
+                os.makedirs(os.path.dirname(d), exist_ok=True)
+                os.symlink(real if i % 2 else os.path.join('..', 'cdirs', 'c%d' % i, 'ndn-real'), d)
+            else:
+                os.makedirs(d)
+        return d
+
+    def target(self, i):
+        """where the text of candidate i is kept when the candidate is a symbolic link to a file: another directory"""
+        return os.path.join(self.work, 'tgt%d' % i, 'conf', 'client.conf')
+
+    def mkcandidate(self, c, i, style):
+        """the object at the path of an existing candidate i (c.kind)"""
+        p, kind = self.cand[i - 1], c['kind'][i - 1]
+        d = self.canddir(i, c)
+        tgt = self.target(i)
+        if kind == 'dir':
+            # exists, but open() fails (EISDIR): the portable "exists and cannot be read" (we run as root, so
+            # mode 000 would not stop open())
+            os.makedirs(p)
+        elif kind == 'linkdir':                 # a link to a directory: exists, open() fails the same way
+            os.makedirs(os.path.dirname(tgt), exist_ok=True)
+            os.symlink(os.path.dirname(tgt), p)
+        elif kind == 'sock':                    # a unix socket: exists, open() fails with ENXIO
+            import socket
+            sk = socket.socket(socket.AF_UNIX, socket.SOCK_STREAM)
+            try:
+                sk.bind(p)
+            except OSError as e:
+                raise tlc.MachineryError('cannot create a unix socket at %s: %s' % (p, e))
+            finally:
+                sk.close()
+        else:
+            real = p
+            if kind == 'link':                  # absolute link for odd i, relative (to the real directory) for even i
+                os.makedirs(os.path.dirname(tgt), exist_ok=True)
+                os.symlink(tgt if i % 2 else os.path.relpath(tgt, os.path.realpath(d)), p)
+                real = tgt
+            with open(real, 'w') as f:
+                f.write(self.file_text(c, i, style))
+
+    def mkghost(self, c, i):
+        """a candidate path that does not exist, with something standing there (c.ghost)"""
+        g = c['ghost'][i - 1]
+        if g == 'none':
+            return
+        self.canddir(i, c)
+        os.symlink(os.path.join(self.work, 'tgt%d' % i, 'gone', 'client.conf') if g == 'dangling' else 'client.conf',
+                   self.cand[i - 1])
 
     def materialise(self, c, style=None):
         """c: configuration (exist = list, key = list of dicts, env/loc/defx dicts). style: file syntax choices."""
+        c = norm_cfg(c) if 'rel' not in c else c
         self.val = c.get('val', 'plain')
+        self.rel, self.sobj, self.smiss, self.nobj, self.cdirs = c['rel'], c['sobj'], c['smiss'], 0, {}
+        self.anylink = 'link' in c['cdir']
+        os.chdir(self.root)
         shutil.rmtree(self.work, ignore_errors=True)
-        os.makedirs(os.path.join(self.work, 'cwd'))
-        os.chdir(os.path.join(self.work, 'cwd'))
+        cwd = os.path.join(self.work, 'cwd')
+        if c['cwd'] == 'link':                  # the working directory is entered through a symbolic link to it
+            os.makedirs(os.path.join(self.work, 'real', 'deep', 'cwd-real'))
+            os.symlink(os.path.join(self.work, 'real', 'deep', 'cwd-real'), cwd)
+        else:
+            os.makedirs(cwd)
+        os.chdir(cwd)
         n = c['n']
         self.cand = [os.path.join(self.work, 'cand%d' % i, 'ndn', 'client.conf') for i in range(1, n + 1)]
         self.def_transport = 'unix://' + os.path.join(self.work, 'run', 'nfd.sock')
@@ -169,34 +278,31 @@ class World:
                          for s in STORES}
         exist = sorted(c['exist'])
         first = exist[0] if exist else 0
+        for i in range(1, n + 1):
+            if i in exist:
+                self.mkcandidate(c, i, style)
+            else:
+                self.mkghost(c, i)
         for s in STORES:
             for j, b in enumerate(c['defx'][s]):
-                if b:
-                    self.mkstore(s, self.defpaths[s][j])
+                (self.mkstore if b else self.mkmissing)(s, self.defpaths[s][j])
             lc = c['loc'][s]
             for src in self.sources(c, s):
                 g = self.given_loc(s, src, lc)
                 if not g:
                     continue
-                if lc in ('absE', 'absEc'):
-                    self.mkstore(s, g)
-                elif lc == 'relCwd':
-                    self.mkstore(s, os.path.join(self.work, 'cwd', g))
-                elif lc == 'relE' and first:
-                    self.mkstore(s, os.path.join(os.path.dirname(self.cand[first - 1]), g))
-                elif lc == 'relOther':
+                if lc not in REL_CLASSES:
+                    self.place(s, '/', g, lc in ('absE', 'absEc'))
+                    continue
+                self.place(s, cwd, g, lc == 'relCwd')                   # as given = from the working directory
+                if first and lc != 'relCwd':
+                    self.place(s, self.canddir(first, c), g, lc in ('relE', 'relB'))    # next to THE configuration file
+                    if lc in ('relT', 'relB') and c['kind'][first - 1] == 'link':
+                        self.place(s, os.path.dirname(self.target(first)), g, True)      # next to the link's target
+                if lc == 'relOther':
                     other = n if first != n else 1
                     if other != first:
-                        self.mkstore(s, os.path.join(os.path.dirname(self.cand[other - 1]), g))
-        for i in exist:
-            if c['kind'][i - 1] == 'dir':
-                # exists, but open() fails (EISDIR): the portable "exists and cannot be read" (we run as root, so
-                # mode 000 would not stop open())
-                os.makedirs(self.cand[i - 1], exist_ok=True)
-                continue
-            os.makedirs(os.path.dirname(self.cand[i - 1]), exist_ok=True)
-            with open(self.cand[i - 1], 'w') as f:
-                f.write(self.file_text(c, i, style))
+                        self.place(s, self.canddir(other, c), g, True)
         for s in SETTINGS:
             if c['env'][s] == 'set':
                 src = {'k': 'env', 'i': 0}
@@ -205,6 +311,24 @@ class World:
                 os.environ[ENVVAR[s]] = ''                  # present, and empty
             else:
                 os.environ.pop(ENVVAR[s], None)
+
+    def conf_dirs(self, i):
+        """the names under which "the directory of candidate i" may be given: as listed, or its canonical path"""
+        if i not in self.cdirs:
+            d = os.path.dirname(self.cand[i])
+            r = os.path.realpath(d) if self.anylink else d
+            self.cdirs[i] = (d,) if r == d else (d, r)
+        return self.cdirs[i]
+
+    @staticmethod
+    def same_location(loc, want):
+        """loc names the location `want`: the same string, or the same after removing '.' / 'x/..' when that does not
+        change what the path reaches"""
+        if loc == want:
+            return True
+        if os.path.normpath(loc) != os.path.normpath(want):
+            return False
+        return not os.path.exists(want) or (os.path.exists(loc) and os.path.samefile(loc, want))
 
     def file_text(self, c, i, style):
         st = style or {}
@@ -289,7 +413,8 @@ class World:
                     if g and loc == g:
                         where = 'given'
                         break
-                    hit = [i + 1 for i, p in enumerate(self.cand) if g and loc == os.path.join(os.path.dirname(p), g)]
+                    hit = [i + 1 for i in range(len(self.cand))
+                           if g and any(self.same_location(loc, os.path.join(d, g)) for d in self.conf_dirs(i))]
                     if hit:
                         where, idx = 'nexttofile', hit[0]
                         break
@@ -380,7 +505,7 @@ def classify(c):
         return 'empty-override'
     if f and any(v == 'emptyval' for v in c['key'][f - 1].values()):
         return 'empty-file-value'
-    if any(c['kind'][i - 1] == 'dir' for i in c['exist']):
+    if any(c['kind'][i - 1] not in READABLE for i in c['exist']):
         return 'later-candidate-unreadable'
     if c.get('val') == 'pct' and c['exist'] and any(v == 'present' for v in c['key'][min(c['exist']) - 1].values()):
         return 'percent-in-file-value'
@@ -390,7 +515,29 @@ def classify(c):
         return 'first-file-%s' % c['body'][min(c['exist']) - 1]
     if any(c['loc'][s] == 'absEc' for s in STORES):
         return 'colon-in-location'
-    return 'general'
+    return fso_class(c) or 'general'
+
+
+def fso_class(c):
+    """the file-system-object dimension a configuration exercises (most specific first), '' if none"""
+    f = first_existing(c)
+    if f and c['kind'][f - 1] == 'link':
+        return 'first-candidate-symlink'
+    if f and c['cdir'][f - 1] == 'link':
+        return 'candidate-directory-symlink'
+    if any(c['ghost'][i - 1] != 'none' for i in range(1, c['n'] + 1) if i not in c['exist']):
+        return 'dangling-candidate'
+    if any(c['kind'][i - 1] == 'link' for i in c['exist']):
+        return 'later-candidate-symlink'
+    if any(c['sobj'][s] != 'dir' for s in STORES):
+        return 'store-location-' + '-'.join(sorted({c['sobj'][s] for s in STORES} - {'dir'}))
+    if any(c['smiss'][s] != 'absent' for s in STORES):
+        return 'store-location-dangling'
+    if any(c['rel'][s] != 'std' and c['loc'][s] in REL_CLASSES for s in STORES):
+        return 'relative-location-spelling'
+    if c['cwd'] != 'plain':
+        return 'working-directory-symlink'
+    return ''
 
 
 NFD_SOCKS = {'/run/nfd/nfd.sock': 'new', '/run/nfd.sock': 'old'}
@@ -434,9 +581,26 @@ def replay_plat(ctx, world, x, out):
 
 def check_linux_platform(ctx, world):
     """the real Linux platform lists against their documented values (ndn-cxx client.conf conventions); the platform
-    object comes from the library's own dispatch"""
-    home = os.path.join(world.root, 'home')
+    object comes from the library's own dispatch.  HOME is given as the path of a real directory ("plain") and as the
+    path of a symbolic link to the home directory ("link": '~' is $HOME as given; a library that names the directory
+    by its canonical path instead is accepted too)"""
+    for how in ('plain', 'link'):
+        _linux_platform(ctx, world, how)
+
+
+def _linux_platform(ctx, world, how):
+    home = os.path.join(world.root, 'home' if how == 'plain' else 'hl')
+    real_home = home
+    if how == 'link':
+        real_home = os.path.join(world.root, 'elsewhere', 'home-real')
+        os.makedirs(real_home, exist_ok=True)
+        if not os.path.lexists(home):
+            os.symlink(real_home, home)
     os.makedirs(home, exist_ok=True)
+    sfx = '' if how == 'plain' else '-home-symlink'
+
+    def differs(got, exp):
+        return got != exp and json.loads(json.dumps(got).replace(real_home, home)) != json.loads(json.dumps(exp))
     saved = os.environ.get('HOME')
     os.environ['HOME'] = home
     inst0 = world.Platform._instance
@@ -463,8 +627,8 @@ def check_linux_platform(ctx, world):
         for k, v in want.items():
             got = getattr(p, k)()
             ctx.evaluations += 1
-            if got != v:
-                ctx.violation('C20/platform.linux/%s/documented-value' % k, 'Linux.%s() = %r, documented %r' % (k, got, v),
+            if differs(got, v):
+                ctx.violation('C20/platform.linux/%s/documented-value%s' % (k, sfx), 'Linux.%s() = %r, documented %r' % (k, got, v),
                               {'kind': 'platform', 'method': k, 'got': got, 'want': v})
         # end to end with the real class: ~/.ndn/client.conf is the first candidate
         from ndn import client_conf as cc
@@ -486,9 +650,32 @@ def check_linux_platform(ctx, world):
                 r2 = cc.read_client_conf()
                 exp2 = dict(exp0, transport='udp://envhost')
                 os.environ.pop('NDN_CLIENT_TRANSPORT')
-                for tag, got, exp in (('defaults', r0, exp0), ('home-file', r1, exp1), ('env', r2, exp2)):
+                # ~/.ndn/client.conf is a symbolic link to a file kept in another directory (a dotfiles checkout); the
+                # stores named relative to it sit next to ~/.ndn/client.conf - first only there, then also next to the
+                # link's target, then only there (not "that file's directory": platform default location)
+                dot = os.path.join(world.root, 'dotfiles-' + how, 'ndn')
+                os.makedirs(dot, exist_ok=True)
+                with open(dot + '/client.conf', 'w') as f:
+                    f.write('pib=pib-sqlite3:keystore\ntpm=tpm-file:./keystore/private\n')
+                os.remove(home + '/.ndn/client.conf')
+                os.symlink(dot + '/client.conf', home + '/.ndn/client.conf')
+                os.makedirs(home + '/.ndn/keystore/private')
+                r3 = cc.read_client_conf()
+                exp3 = dict(exp0, pib='pib-sqlite3:' + home + '/.ndn/keystore', tpm='tpm-file:' + home + '/.ndn/./keystore/private')
+                os.makedirs(dot + '/keystore/private')
+                r4 = cc.read_client_conf()
+                shutil.rmtree(home + '/.ndn/keystore')
+                r5 = cc.read_client_conf()
+                for tag, got, exp in (('defaults', r0, exp0), ('home-file', r1, exp1), ('env', r2, exp2),
+                                      ('linked-file-store-next-to-link', r3, exp3), ('linked-file-store-next-to-both', r4, exp3),
+                                      ('linked-file-store-next-to-target', r5, exp0)):
+                    tag += sfx
                     ctx.evaluations += 1
-                    if got != exp:
+                    if isinstance(got, dict) and set(got) == set(exp) and all(isinstance(v, str) for v in got.values()):
+                        # a location may be spelled with or without './'
+                        got = {k: v.replace('/./', '/') for k, v in got.items()}
+                        exp = {k: v.replace('/./', '/') for k, v in exp.items()}
+                    if differs(got, exp):
                         ctx.violation('C20/platform.linux/read_client_conf/%s' % tag,
                                       'real Linux platform, HOME patched, %s: %r, expected %r' % (tag, got, exp),
                                       {'kind': 'platform', 'case': tag, 'got': got, 'want': exp})
@@ -504,6 +691,7 @@ def check_linux_platform(ctx, world):
 # ------------------------------------------------------------------------------------------ random (stage C)
 
 LOC_C = ['none', 'absE', 'absM', 'relE', 'relM', 'relCwd', 'relOther', 'absEc']
+UNREADABLE_C = ['dir', 'dir', 'linkdir', 'sock']
 
 
 def rand_config(rng):
@@ -512,10 +700,23 @@ def rand_config(rng):
     key = [{s: rng.choice(['present', 'present', 'absent', 'absent', 'commented', 'commented', 'emptyval']) for s in SETTINGS}
            for _ in range(n)]
     env = {s: rng.choice(['unset'] * 13 + ['set'] * 5 + ['empty'] * 2) for s in SETTINGS}
-    # every candidate is a regular file or something that exists and cannot be read as one (a directory)
+    # every candidate is a regular file, a symbolic link to a file kept elsewhere, or something that exists and cannot
+    # be read as a file (a directory, a link to one, a socket); its directory may be reached through a link; where no
+    # candidate exists there may stand a dangling link or a link loop
     pdir = rng.choice([0.0, 0.0, 0.1, 0.3])
-    kind = ['dir' if rng.random() < pdir else 'file' for _ in range(n)]
+    plink = rng.choice([0.0, 0.0, 0.3, 0.7])
+    kind = [rng.choice(UNREADABLE_C) if rng.random() < pdir else 'link' if rng.random() < plink else 'file' for _ in range(n)]
+    ghost = [rng.choice(['dangling', 'loop']) if rng.random() < plink / 2 else 'none' for _ in range(n)]
+    cdir = ['link' if rng.random() < plink / 2 else 'plain' for _ in range(n)]
     loc = {s: rng.choice(LOC_C[:7]) if rng.random() < 0.93 else 'absEc' for s in STORES}
+    for s in STORES:
+        if plink and rng.random() < 0.4:
+            loc[s] = rng.choice(['relE', 'relT', 'relB'])
+    fsx = rng.random() < 0.35               # the store locations / spellings / working directory take part as well
+    sobj = {s: rng.choice(['dir', 'link', 'file']) if fsx else 'dir' for s in STORES}
+    smiss = {s: rng.choice(['absent', 'dangling']) if fsx else 'absent' for s in STORES}
+    rel = {s: rng.choice(['std', 'dot', 'dotdot', 'deep']) if fsx or rng.random() < 0.1 else 'std' for s in STORES}
+    cwd = 'link' if fsx and rng.random() < 0.4 else 'plain'
     defx = {s: [rng.random() < 0.5 for _ in range(rng.randint(1, 3))] for s in STORES}
     body = []
     for i in range(n):
@@ -533,14 +734,15 @@ def rand_config(rng):
     val = rng.choice(['plain'] * 15 + ['pct', 'pct', 'punct', 'punct', 'foreigntpm'])
     if len(exist) >= 2 and rng.random() < 0.06:
         # "the first existing candidate is unreadable, a later one is a regular file with values" deserves weight
-        kind[exist[0] - 1], kind[exist[1] - 1] = 'dir', 'file'
+        kind[exist[0] - 1], kind[exist[1] - 1] = rng.choice(UNREADABLE_C), rng.choice(['file', 'file', 'link'])
         key[exist[1] - 1] = {s: 'present' for s in SETTINGS}
         body[exist[1] - 1] = 'plain'
     for i in range(n):
-        if kind[i] == 'dir':            # a directory has no content
+        if kind[i] not in READABLE:     # a directory / socket has no content
             key[i] = {s: 'absent' for s in SETTINGS}
             body[i] = 'plain'
-    return {'n': n, 'exist': exist, 'kind': kind, 'key': key, 'body': body, 'env': env, 'loc': loc, 'defx': defx, 'val': val}
+    return {'n': n, 'exist': exist, 'kind': kind, 'key': key, 'body': body, 'env': env, 'loc': loc, 'defx': defx, 'val': val,
+            'ghost': ghost, 'cdir': cdir, 'cwd': cwd, 'sobj': sobj, 'smiss': smiss, 'rel': rel}
 
 
 def rand_style(rng):
@@ -582,11 +784,12 @@ def rand_uri(rng):
 def tojson_cfg(x):
     """state variable x of ClientConfMC (via dump) -> configuration dict used by World"""
     return {'n': x['n'], 'exist': sorted(x['exist']), 'kind': list(x['kind']), 'key': x['key'], 'body': x['body'], 'env': x['env'],
-            'loc': x['loc'], 'defx': x['defx'], 'val': x['val']}
+            'loc': x['loc'], 'defx': x['defx'], 'val': x['val'], 'ghost': list(x['ghost']), 'cdir': list(x['cdir']),
+            'cwd': x['cwd'], 'sobj': x['sobj'], 'smiss': x['smiss'], 'rel': x['rel']}
 
 
 def nontrivial(c):
-    return bool(c['exist']) and (any(v != 'unset' for v in c['env'].values()) or c['kind'][min(c['exist']) - 1] == 'dir'
+    return bool(c['exist']) and (any(v != 'unset' for v in c['env'].values()) or c['kind'][min(c['exist']) - 1] != 'file'
                                  or any(v != 'present' for v in c['key'][min(c['exist']) - 1].values()))
 
 
@@ -595,7 +798,7 @@ def run(ctx):
                 'read_client_conf, default_keychain, default_face; C = random larger configurations judged by TLC. '
                 'non-trivial = distinct configuration with an existing candidate and at least one of: environment override '
                 '(set or empty), a key absent / commented / empty-valued in the first existing file, first existing '
-                'candidate not a readable file')
+                'candidate not a regular file (a directory, a socket, a symbolic link)')
     ctx.assumptions = ['the Platform singleton may be replaced by a subclass of the Linux platform whose path lists point '
                        'into a scratch tree (the code under test only calls Platform() methods)',
                        'macOS / Windows platform classes are not importable here and are not checked']
@@ -620,6 +823,10 @@ def run(ctx):
         if 'B' in ctx.stages:
             nb = nf = npl = 0
             dims = {'unreadable-first': 0, 'unreadable-later': 0, 'empty-override': 0, 'empty-file-value': 0}
+            fso = {k: 0 for k in ('first-candidate-symlink', 'candidate-directory-symlink', 'dangling-candidate',
+                                  'store-location-link', 'store-location-file', 'store-location-dangling',
+                                  'relative-location-spelling', 'working-directory-symlink', 'relT', 'relB',
+                                  'unreadable-linkdir', 'unreadable-sock')}
             for st in urikit.read_dump(dump, ('kind', 'x', 'out')):
                 if st['kind'] == 'plat':
                     replay_plat(ctx, world, st['x'], st['out'])
@@ -648,7 +855,10 @@ def run(ctx):
                 if nb == 4000:
                     ctx.sample({'kind': 'B-conf', 'c': c, 'result': world.anon(res), 'observation': obs})
                 dims['unreadable-first'] += unreadable_first(c)
-                dims['unreadable-later'] += any(c['kind'][i - 1] == 'dir' for i in c['exist']) and not unreadable_first(c)
+                dims['unreadable-later'] += any(c['kind'][i - 1] not in READABLE for i in c['exist']) and not unreadable_first(c)
+                for k in {fso_class(c)} | {c['loc'][s] for s in STORES} | {'unreadable-' + c['kind'][i - 1] for i in c['exist']}:
+                    if k in fso:
+                        fso[k] += 1
                 dims['empty-override'] += 'empty' in c['env'].values()
                 dims['empty-file-value'] += any('emptyval' in k.values() for k in c['key'])
                 for cl in compare(out, obs):
@@ -664,6 +874,8 @@ def run(ctx):
             if not nb or not nf:
                 raise tlc.MachineryError('no states in the TLC dump')
             ctx.note('B: of these ' + ', '.join('%d %s' % (v, k) for k, v in dims.items()))
+            ctx.note('B: file-system objects: ' + ', '.join('%d %s' % (v, k) for k, v in fso.items()))
+            dims.update(fso)
             if not all(dims.values()):
                 raise tlc.MachineryError('a dimension of the configuration product is not in the TLC dump: %r' % dims)
         if 'C' in ctx.stages:
